@@ -201,7 +201,7 @@ pub fn run(ctx: &Ctx) -> Report {
 
     // (b)+(c) well-formed documents with ground truth
     let mut r = ctx.rng("c17-faithful");
-    let n = ctx.count(30_000, 1_000_000);
+    let n = if ctx.want("docs") { ctx.count(30_000, 1_000_000) } else { 0 };
     for k in 0..n {
         let t = gen_truth(&mut r);
         let doc = build_doc(&t, &mut r, true);
@@ -241,7 +241,7 @@ pub fn run(ctx: &Ctx) -> Report {
 
     // (a) totality: mutated torrents, random delimiter soup, then (c) on whatever is accepted
     let mut r = ctx.rng("c17-total");
-    let n = ctx.count(40_000, 1_500_000);
+    let n = if ctx.want("totality") { ctx.count(40_000, 1_500_000) } else { 0 };
     for _ in 0..n {
         let mut doc = if r.chance(3, 4) {
             let mut t = gen_truth(&mut r);
@@ -280,7 +280,7 @@ pub fn run(ctx: &Ctx) -> Report {
     // (d) create_file -> from_file round trip (cwd-relative: done in this worker's scratch dir)
     let mut r = ctx.rng("c17-create");
     let sizes_all: Vec<usize> = vec![0, 1, 262143, 262144, 262145, 524288, 524289, 1_000_000];
-    let k = ctx.count(16, 160) as usize;
+    let k = if ctx.want("create") { ctx.count(16, 160) as usize } else { 0 };
     std::env::set_current_dir(&ctx.scratch).unwrap();
     for i in 0..k {
         let size = if i < sizes_all.len() && ctx.shard == 0 { sizes_all[i] } else {
